@@ -675,6 +675,12 @@ def _run_rsseq(case):
                          "returned": out != "hang", "dt": now() - t0, "logs": len(sink) - l0, **rest()})
             if out == "hang":
                 break
+        for f in cell:        # abandoned tasks that failed later: mark the exception retrieved (no asyncio noise at GC)
+            try:
+                if f.done() and not f.cancelled():
+                    f.exception()
+            except Exception:
+                pass
         other = sorted(set(e[1] for e in sink if not (isinstance(e[1], str) and e[1].startswith("other:res"))))
         return {"recs": recs, "fired": fired, "other_logs": [str(x) for x in other]}
 
